@@ -74,6 +74,11 @@ fn rec(
                 return;
             }
         }
+        // never valid Rust: a declared generic parameter that no payload mentions (a later deviation may have removed
+        // or re-typed the variant that used it)
+        if !generics_all_used(&s) {
+            return;
+        }
         if !domain(&s) {
             *excluded += 1;
             return;
@@ -284,4 +289,46 @@ pub fn rare_shape_devs(n: usize, case_twin: bool) -> Vec<Dev> {
         }));
     }
     d
+}
+
+/// every declared generic parameter occurs in the type text of some field (as a whole word)
+pub fn generics_all_used(s: &EnumSpec) -> bool {
+    use crate::spec::{Generic, Kind};
+    if s.generics.is_empty() {
+        return true;
+    }
+    let mut text = String::new();
+    for v in &s.variants {
+        match &v.kind {
+            Kind::Unit => {}
+            Kind::Tuple(fs) => fs.iter().for_each(|f| {
+                text.push_str(&f.ty());
+                text.push(' ');
+            }),
+            Kind::Named(fs) => fs.iter().for_each(|f| {
+                text.push_str(&f.ty.ty());
+                text.push(' ');
+            }),
+        }
+    }
+    let has_word = |w: &str| {
+        let b = text.as_bytes();
+        let mut from = 0;
+        while let Some(p) = text[from..].find(w) {
+            let i = from + p;
+            let before_ok = i == 0 || !(b[i - 1].is_ascii_alphanumeric() || b[i - 1] == b'_');
+            let j = i + w.len();
+            let after_ok = j >= b.len() || !(b[j].is_ascii_alphanumeric() || b[j] == b'_');
+            if before_ok && after_ok {
+                return true;
+            }
+            from = i + w.len();
+        }
+        false
+    };
+    s.generics.iter().all(|g| match g {
+        Generic::Type { name, .. } => has_word(name),
+        Generic::Const { name } => has_word(name),
+        Generic::Lifetime { name } => text.contains(&format!("'{}", name)),
+    })
 }
